@@ -63,6 +63,12 @@ type dRun struct {
 	stallFor  time.Duration
 	gap       int
 	fatalWait bool
+	neighbour  bool // a second diode.Writer shares the package-level buffer pool
+	closeTwice bool
+	close2Inv  int
+	close2Ret  int
+	nbWritten  map[string]bool
+	nbSeen     map[string]bool
 	fatalFilt int // 0: the Fatal event is enabled; 1: logger level Disabled; 2: global level Disabled
 	skipIdle  bool
 
@@ -221,6 +227,32 @@ func (k *dSink) Write(p []byte) (int, error) {
 	return len(p), nil
 }
 
+// nbSink is the destination of the neighbour writer: every buffer it receives
+// must be one of the neighbour's own payloads, once.
+type nbSink struct{ r *dRun }
+
+func (k nbSink) Write(p []byte) (int, error) {
+	r := k.r
+	if zsim.Dying() {
+		return len(p), nil
+	}
+	s := string(p)
+	zsim.Yield("neighbour sink")
+	if r.on("C10") {
+		if !r.nbWritten[s] {
+			zsim.Fail("C10.integrity", "a second diode.Writer sharing the buffer pool received a buffer that equals none of its payloads: %s", clip(p, 80))
+		}
+		if r.nbSeen[s] {
+			zsim.Fail("C10.duplicate", "a second diode.Writer received %s twice", clip(p, 40))
+		}
+		if string(p) != s {
+			zsim.Fail("C10.integrity", "the neighbour's buffer changed while its destination was inside Write")
+		}
+	}
+	r.nbSeen[s] = true
+	return len(p), nil
+}
+
 type collisionCounter struct{ r *dRun }
 
 func (c collisionCounter) Write(p []byte) (int, error) {
@@ -335,6 +367,13 @@ func (r *dRun) config() {
 	r.interval = []time.Duration{0, time.Millisecond, 10 * time.Millisecond}[c.Weighted(5, 3, 2)]
 	r.nProd = 1 + c.Weighted(4, 4, 2, 1)
 	r.nWrites = 1 + c.Intn(6)
+	if zsim.Deep {
+		r.ring = []int{2, 1, 3, 4, 8, 5, 16}[c.Intn(7)]
+		r.nProd = 1 + c.Intn(6)
+		r.nWrites = 1 + c.Intn(8)
+	}
+	r.neighbour = c.Chance(1, 4)
+	r.closeTwice = c.Chance(1, 4)
 	r.viaLogger = c.Chance(1, 3)
 	var w []int
 	switch r.prop {
@@ -404,6 +443,32 @@ func (diodeWorld) Run(prop string, ch *zsim.Choices, trace bool) *RunResult {
 		}
 		r.dw = diode.NewWriter(sink, r.ring, r.interval, alerter)
 		lg := zerolog.New(r.tap)
+		var nbTask *zsim.Task
+		var nbw diode.Writer
+		if r.neighbour {
+			// an unrelated writer with its own ring and destination; only the buffer pool is shared
+			r.nbWritten, r.nbSeen = map[string]bool{}, map[string]bool{}
+			nbw = diode.NewWriter(nbSink{r}, 4, r.interval, func(int) {})
+			zsim.Probe("neighbour_writer")
+			nbTask = zsim.Spawn("neighbour", func() {
+				for k := 0; k < 4; k++ {
+					msg := fmt.Sprintf("nb.%d|%s", k, strings.Repeat("n", k*150))
+					r.nbWritten[msg] = true
+					buf := []byte(msg)
+					nbw.Write(buf)
+					for i := range buf {
+						buf[i] = '!'
+					}
+					zsim.Yield("neighbour gap")
+				}
+			})
+		}
+		defer func() {
+			if r.neighbour && !zsim.Dying() {
+				zsim.Join(nbTask)
+				nbw.Close()
+			}
+		}()
 		fatalProd := -1
 		if r.scenario == scFatal {
 			fatalProd = ch.Intn(r.nProd)
@@ -456,6 +521,11 @@ func (diodeWorld) Run(prop string, ch *zsim.Choices, trace bool) *RunResult {
 			}
 		}
 		r.tap.Close()
+		if r.closeTwice {
+			r.close2Inv = r.t()
+			r.dw.Close()
+			r.close2Ret = r.t()
+		}
 		zsim.Settle()
 		r.settled = true
 	}
@@ -490,6 +560,9 @@ func (r *dRun) post(s *zsim.Sim) *zsim.Violation {
 	if r.on("C12") {
 		if r.closeInv > 0 && r.closeRet == 0 && s.Stuck && !s.Exited {
 			return viol("C12.close_blocked", "Close never returns; tasks: %s", s.StuckInfo)
+		}
+		if r.close2Inv > 0 && r.close2Ret == 0 && s.Stuck && !s.Exited {
+			return viol("C12.close_blocked", "a second Close never returns; tasks: %s", s.StuckInfo)
 		}
 		if r.scenario == scNormal && s.Stuck && !r.phaseBDone {
 			return nil // producers blocked: C10's business
